@@ -146,6 +146,26 @@ func suiteC03(c *ctx) {
 			kv = append(kv, true)
 		}
 	}
+	// every header/symbol fault placed in a LATER block (after blocks that have filled the decoder's
+	// tables: a dynamic block without distance codes that uses a length symbol finds the previous
+	// block's distance table, ...), and in the first block of a stream read through a reused Reader
+	for j := 0; j < c.n(34); j++ {
+		f := faultKinds[j%len(faultKinds)]
+		sp := &SynthSpec{Seed: r.U64(), Blocks: 2 + r.Intn(2), Size: r.Pick([]int{40, 300, 3000}), Fault: f, Kinds: r.PickS([]string{"d", "d", "fd"})}
+		sp.FaultB = 1 + r.Intn(sp.Blocks-1)
+		if j%2 == 1 {
+			sp.Fault = "empty-dist-used"
+		}
+		rc := &RCase{Prop: "C03", ID: fmt.Sprintf("C03-f%d", j), API: "flate", Stream: StreamSpec{Kind: "synth", Synth: sp}, Cut: -1, Src: SrcSpec{Kind: "bytes.Reader"}, Ctor: "new",
+			Reads: r.PickS([]string{"big", "k257", "rand"}), RSeed: r.U64()}
+		if j%4 >= 2 {
+			sp.Blocks, sp.FaultB = 1+r.Intn(2), 0
+			rc.Ctor = "reuse"
+			rc.Prior = &PriorSpec{Stream: StreamSpec{Kind: "synth", Synth: &SynthSpec{Seed: r.U64(), Blocks: 1 + r.Intn(3), Size: r.Pick([]int{40, 3000}), Kinds: "d"}}, Read: -1, Cut: -1}
+		}
+		cases = append(cases, rc)
+		kv = append(kv, false)
+	}
 	// dynamic headers full of long zero runs (code-length symbol 18 with its 7 extra bits), cut at
 	// every byte: the input ends inside or right after the run-length items
 	for j := 0; j < c.n(10); j++ {
